@@ -111,6 +111,15 @@ def _run_structural(ctx):
         owned = key in allowed or res.owned_by(f, ["gwf.plugins.clean:clean", "gwf.plugins.run:clean_logs", "gwf.plugins.run:run"])
         r1.check(owned, f"{f.module.relpath}::{f.qual}::delete", f"{len(effs)} delete site(s) in an owner (or a helper only its owner calls)",
                  f"{f.qual} deletes files ({effs[0].detail}): only `gwf clean` and the log cleaning of `gwf run` may remove anything", effs[0].where)
+    # one declared path = one file: a recursive delete removes whatever lies below a declared directory, none of which was checked against protect / endpoints / declarations
+    for key, effs in sorted(deleters.items()):
+        f = idx.functions[key]
+        for e in effs:
+            d = str(e.detail)
+            if d in ("shutil.rmtree", "os.removedirs") or d.endswith("rmtree") or d.endswith("removedirs"):
+                r1.violation(f"{f.module.relpath}::{f.qual}::recursive-delete", f"{f.qual} removes a whole directory tree ({d}): when a target declares a directory as output, every file "
+                             "below it is deleted without the protect / endpoint / declared-output test that is made per declared path - protected files, other targets' outputs "
+                             "and files no target declares are removed", e.where)
     if not any(k.startswith("gwf.plugins.clean:") for k in deleters):
         r1.violation(ccon + "::delete", "clean never deletes anything: unprotected outputs of selected targets are not removed", clean.where)
     # _delete_file deletes its own parameter
@@ -250,6 +259,30 @@ def _run_structural(ctx):
     r5 = ctx.rule("R5", "protected paths and outputs are normalised by the same function on every path")
     from .c03 import rule_norm_path
     rule_norm_path(ctx, r5)
+    # the path that is deleted is the DECLARED path: normalisation is lexical.  Resolving symbolic links would make clean remove the file a link points to
+    # (a shared raw file, another project's data) and leave the declared link behind
+    seen, todo, n_fn = set(), [idx.maybe_func("gwf.core:Target.flattened_outputs"), idx.maybe_func("gwf.core:Target.protected")], 0
+    while todo:
+        f = todo.pop()
+        if f is None or f.key in seen:
+            continue
+        seen.add(f.key)
+        n_fn += 1
+        for c in _calls(f.node):
+            canon = idx.canon(c.func, f.module) if isinstance(c.func, (ast.Name, ast.Attribute)) else None
+            attr = c.func.attr if isinstance(c.func, ast.Attribute) else None
+            if canon in ("os.path.realpath", "os.readlink", "os.path.samefile") or (attr in ("resolve", "readlink", "samefile") and not (canon or "").startswith("gwf.")):
+                r5.violation(f"{f.module.relpath}::{f.qual}::follows-symlinks", f"{f.qual} resolves symbolic links ({canon or '.' + attr}) while normalising a declared path: for an output "
+                             "that is a symlink (or lies below a symlinked directory) `gwf clean` then deletes the link's target - a file no target declares - instead of the declared path",
+                             loc(c, f.module))
+            try:
+                for callee in res.callees(c, f, {}):
+                    fi = getattr(callee, "finfo", callee)
+                    if hasattr(fi, "key") and fi.key.startswith("gwf.core:"):
+                        todo.append(fi)
+            except Exception:
+                pass
+    r5.ok("src/gwf/core.py::path-normalisation::lexical", f"{n_fn} function(s) between a declared output and the path handed to the delete: none resolves symbolic links", "src/gwf/core.py:1")
     # ... and reach that function: the workflow API hands the protect entries on as written
     from .evalhelpers import cached_witness, report_witness, workflow_api_witness
     report_witness(r5, "src/gwf/workflow.py::Workflow::protect", "src/gwf/workflow.py:1", cached_witness(ctx, "workflow-api", workflow_api_witness),
